@@ -72,9 +72,17 @@ func vServerSession(tok, payload []byte, key [4]byte) []byte {
 	if err != nil {
 		return append(obs, "upgrade-error"...)
 	}
-	obs = append(obs, hs.Protocol...)
 	obs = append(obs, byte(len(hs.Extensions)))
 	obs = append(obs, hconn.out...)
+	// a second handshake through the Extension-callback path
+	u2 := ws.Upgrader{Protocol: func(p []byte) bool { return len(p) == 2 }, Extension: func(o httphead.Option) bool { return true }}
+	req2 := append([]byte{}, req[:len(req)-2]...)
+	req2 = append(req2, "X-More: 1\r\n\r\n"...)
+	hconn2 := &vHalf{in: req2}
+	hs2, err := u2.Upgrade(hconn2)
+	if err != nil || len(hs2.Extensions) != 1 {
+		return append(obs, "upgrade2-error"...)
+	}
 	// frames from the client: a ping, then a fragmented text message
 	// (a 125-byte ping: its pong is built in a pooled buffer — smaller ones are not pooled)
 	big := append(bytes.Repeat([]byte{'x'}, 124), payload[0])
@@ -117,6 +125,15 @@ func vServerSession(tok, payload []byte, key [4]byte) []byte {
 	}
 	for i := 0; i < 100; i++ {
 		obs = append(obs, out.all[6+i]^out.all[2+i%4])
+	}
+	// handshake results are looked at LAST, after the pooled buffers have been through other
+	// hands (engine: their content is arbitrary from here on; natively: recycled and scribbled)
+	vPoisonPools()
+	obs = append(obs, hs.Protocol...)
+	obs = append(obs, hs2.Protocol...)
+	obs = append(obs, hs2.Extensions[0].Name...)
+	if _, ok := hs2.Extensions[0].Parameters.Get("client_max_window_bits"); ok {
+		obs = append(obs, '=')
 	}
 	return obs
 }
